@@ -28,6 +28,18 @@ Section C28.
       = ScOk (new ++ prev_db) root.
   Proof. exact (sc_honest_change_reproduces node hash bhash heqb bheqb H children heqb_spec bheqb_spec H_inj). Qed.
 
+  (* Lifted to a chain of any length: blocks 1..K all obtained by sync, each change set applied
+     over what the previous apply produced (nothing persisted in between), give the executed db:
+     the new nodes of every block layered over the previous db. *)
+  Theorem C28_honest_chain_reproduces :
+    forall l prev_db,
+      Forall (fun x => sc_honest node hash bhash heqb H children
+                         (fst (fst x)) (snd (fst x)) (snd (snd x)) (fst (snd x))) l ->
+      sc_sync_chain node hash bhash heqb bheqb H children prev_db
+        (map (fun x => (fst (snd x), sc_new_change node hash bhash (fst (fst x)) (snd (fst x)) (snd (snd x)))) l)
+      = Some (fold_left (fun db x => snd (snd x) ++ db) l prev_db).
+  Proof. exact (sc_honest_chain node hash bhash heqb bheqb H children heqb_spec bheqb_spec H_inj). Qed.
+
   (* A change set is accepted only if block hash, declared state root and node count all match
      and it passed validation; then the block's state is the set layered over the local db. *)
   Theorem C28_accepted_only_if_all_checks_pass :
@@ -150,6 +162,7 @@ Theorem C28_full_statement_refuted : ~ C28_full_statement.
 Proof. exact sc_full_refuted. Qed.
 
 Print Assumptions C28_honest_change_reproduces.
+Print Assumptions C28_honest_chain_reproduces.
 Print Assumptions C28_repaired_accepted_is_complete.
 Print Assumptions C28_repaired_honest_change_reproduces.
 Print Assumptions C28_source_apply_integrity.
